@@ -329,35 +329,41 @@ Definition fres_exc_verify (f : fres) : outcome :=
 Definition outer_modelled (p : params) : bool :=
   negb (has_key k_id_token_hint p) && negb (has_key k_prompt p).
 
+(* the `request` parameter: from_jwt, then merge (strict: drop what the object does not carry; lax: keep) and
+   remember the verified object.  oauth2.AuthorizationRequest.verify (strict) / PushedAuthorizationRequest.verify (lax) *)
+Definition merge_obj (strict : bool) (g : cfg) (p : params) (w : option wobj) : outcome :=
+  match assoc k_request p with
+  | Some (PS_ _) =>
+      match w with
+      | None => OUnmodelled
+      | Some w' => match from_jwt g None w' with
+                   | FOk v => Acc {| r_params := update (if strict then restrict p (v_claims v) else p) (v_claims v);
+                                     r_vr := Some v |}
+                   | f => fres_exc_verify f
+                   end
+      end
+  | Some (PL_ _) => OUnmodelled
+  | None => Acc {| r_params := p; r_vr := None |}
+  end.
+
+(* oidc.AuthorizationRequest.verify: the checks after the merge *)
+Definition oidc_checks (r : req) : outcome :=
+  let q := r_params r in
+  match assoc k_response_type q with
+  | None => ErrResp e_invalid_request d_missing None
+  | Some rt =>
+      if in_pv s_id_token (Some rt) then OUnmodelled          (* nonce rules: not modelled *)
+      else if negb (in_pv s_openid (assoc k_scope q)) then ErrResp e_invalid_request d_openid None
+      else if in_pv s_offline (assoc k_scope q) then OUnmodelled
+      else Acc r
+  end.
+
 (* oauth2/oidc AuthorizationRequest.verify as called from Endpoint.verify_request *)
 Definition verify_authz (g : cfg) (p : params) (w : option wobj) : outcome :=
   if negb (outer_modelled p) then OUnmodelled else
   if missing_required (oidc g) p then ErrResp e_invalid_request d_missing None else
-  let merged :=
-    match assoc k_request p with
-    | Some (PS_ _) =>
-        match w with
-        | None => OUnmodelled
-        | Some w' => match from_jwt g None w' with
-                     | FOk v => Acc {| r_params := update (restrict p (v_claims v)) (v_claims v); r_vr := Some v |}
-                     | f => fres_exc_verify f
-                     end
-        end
-    | Some (PL_ _) => OUnmodelled
-    | None => Acc {| r_params := p; r_vr := None |}
-    end in
-  match merged with
-  | Acc r =>
-      if negb (oidc g) then Acc r else
-      let q := r_params r in
-      match assoc k_response_type q with
-      | None => ErrResp e_invalid_request d_rt_missing None
-      | Some rt =>
-          if in_pv s_id_token (Some rt) then OUnmodelled          (* nonce rules: not modelled *)
-          else if negb (in_pv s_openid (assoc k_scope q)) then ErrResp e_invalid_request d_openid None
-          else if in_pv s_offline (assoc k_scope q) then OUnmodelled
-          else Acc r
-      end
+  match merge_obj true g p w with
+  | Acc r => if oidc g then oidc_checks r else Acc r
   | o => o
   end.
 
@@ -552,19 +558,7 @@ Definition par_parse (g : cfg) (st : state) (pusher : pystr) (body : params) (w 
   | Some _ =>
       if negb (outer_modelled body) then OUnmodelled else
       let p := aset k_authenticated (PS_ s_true) (aset k_client_id (PS_ pusher) body) in
-      let merged :=
-        match assoc k_request p with
-        | Some (PS_ _) =>
-            match w with
-            | None => OUnmodelled
-            | Some w' => match from_jwt g None w' with
-                         | FOk v => Acc {| r_params := update p (v_claims v); r_vr := Some v |}
-                         | f => fres_exc_verify f
-                         end
-            end
-        | Some (PL_ _) => OUnmodelled
-        | None => Acc {| r_params := p; r_vr := None |}
-        end in
+      let merged := merge_obj false g p w in
       match merged with
       | Acc r =>
           if missing_required false (r_params r) then ErrResp e_invalid_request d_missing None
@@ -576,20 +570,7 @@ Definition par_parse (g : cfg) (st : state) (pusher : pystr) (body : params) (w 
 Inductive pushres := PUrn (expires_in : Z) | PStoredExc (tag : N) | PExc (tag : N) | PNone | PUnmodelled.
 (* process_request: AuthorizationRequest(request).verify() = strict merge again; store under the urn *)
 Definition par_process (g : cfg) (st : state) (r : req) (w : option wobj) (urn : pystr) : state * pushres :=
-  let stored :=
-    match assoc k_request (r_params r) with
-    | Some (PS_ _) =>
-        match w with
-        | None => OUnmodelled
-        | Some w' => match from_jwt g None w' with
-                     | FOk v => Acc {| r_params := update (restrict (r_params r) (v_claims v)) (v_claims v);
-                                       r_vr := Some v |}
-                     | f => fres_exc_verify f
-                     end
-        end
-    | Some (PL_ _) => OUnmodelled
-    | None => Acc {| r_params := r_params r; r_vr := None |}
-    end in
+  let stored := merge_obj true g (r_params r) w in
   match stored with
   | Acc s =>
       let st' := {| par_db := aset urn {| e_req := s; e_exp := now st + ttl g |} (par_db st); now := now st |} in
